@@ -54,10 +54,18 @@ func fieldcontract_Methods_Unmarshal(in protoiface.UnmarshalInput) (out protoifa
 	return
 }
 
-//@ props C06 C07 C10
+// What is handed to the fast-path decoder is exactly what the caller asked for: the same buffer and
+// message, the remaining recursion budget (C06), the discard-unknown choice (C09), the
+// required-check request (C10) and the lazy-decoding choice.
+//
+//@ props C06 C07 C09 C10
 //@ mode int
 //@ nopanic
 //@ guard-errors
+//@ callsite methods.Unmarshal: iff(in.Flags&protoiface.UnmarshalDiscardUnknown != 0, o.DiscardUnknown)
+//@ callsite methods.Unmarshal: iff(in.Flags&protoiface.UnmarshalCheckRequired != 0, !allowPartial)
+//@ callsite methods.Unmarshal: iff(in.Flags&protoiface.UnmarshalNoLazyDecoding != 0, o.NoLazyDecoding)
+//@ callsite methods.Unmarshal: in.Depth == o.RecursionLimit && identical(in.Message, m) && sameArray(in.Buf, b) && len(in.Buf) == len(b)
 func contract_UnmarshalOptions_unmarshal(o UnmarshalOptions, b []byte, m protoreflect.Message) (out protoiface.UnmarshalOutput, err error) {
 	modifiesAll()
 	// without AllowPartial, success means: reported initialized by the fast path, or vouched for by checkInitialized
